@@ -679,7 +679,7 @@ def gen_res():
             '<p><img src="odd.svg" alt="alt1" width="-" height="1e"> <img src="odd.svg" width="0" height="0" alt="alt2"> <font size="+9" color="#zz">o009</font> <font size="">o010</font></p>'
             '<hr size="x" width="50%%"><pre width="0">o011</pre><p align="bogus" dir="x" lang="">o012</p>' + text)
     scenario("res-14", "res", doc(css0, body), files=files,
-             expect=dict(exp0, sentinels=W + ["o%03d" % i for i in range(0, 13)], fault_words=dict({"odd.svg": ["alt1", "alt2", "sv03"]}, **{"par%d.svg" % i: ["pa%02d" % i] for i in range(8)})))
+             expect=dict(exp0, legacy_attrs=True, sentinels=W + ["o%03d" % i for i in range(0, 13)], fault_words=dict({"odd.svg": ["alt1", "alt2", "sv03"]}, **{"par%d.svg" % i: ["pa%02d" % i] for i in range(8)})))
 
     # 16: @import inside an SVG <style>: chain, diamond, cycle and self import (fetched by the SVG code through
     # utils.DefaultUrlFetcher, i.e. over the simulated http transport)
@@ -703,7 +703,7 @@ def gen_res():
             '<table cellspacing="-99999999999999999999" cellpadding="99999999999999999999" width="-99999999999999999999" border="-1" height="9e99"><tr><td width="-5" height="1e999" colspan="3">m001</td></tr></table>'
             '<table cellspacing="-99999999999999999999"><tr><td>m005 m006 m007</td></tr></table><table width="99999999999999999999"><tr><td>m008 m009</td></tr></table><table cellpadding="-99999999999999999999"><tr><td>m010</td></tr></table>'
             '<table cellspacing="1e3" width="100000%"><tr><td>m002</td></tr></table><hr size="-99999999999999999999" width="99999999999999999999"><font size="99999999999999999999">m003</font> <font size="-99999999999999999999">m004</font>' + text)
-    scenario("res-17", "res", doc(css, body), expect=dict(exp0, sentinels=W))
+    scenario("res-17", "res", doc(css, body), expect=dict(exp0, sentinels=W, legacy_attrs=True))
 
     # 13: underlined links with both engines (text decoration path), pre / tabs / rtl text
     css = css0 + "a { text-decoration: underline }\n.o { text-decoration: overline line-through }\npre { font-family: ahem; margin: 0 }\n"
@@ -1243,6 +1243,56 @@ def gen_wave3():
     body.append(para(ws, "", 5))
     flows["main"] = main
     scenario("oof-15", "oof", doc(css, "\n".join(body)), expect=dict(flows=flows, margin=True, page_w=260, page_h=150, conserve=True, line_height=12))
+
+    # floats / an absolute box that END in the middle of the document, followed by pages that break nothing, then
+    # pages with probes: re-making only a late page must not bring the finished floats back
+    css = page_css(260, 150, 10) + BASE + ".f { float: left; width: 50px; margin-right: 10px } .rel { position: relative } .abs { position: absolute; right: 0; top: 0; width: 50px }\n" + PROBE_CSS
+    body, flows, main = [], {}, []
+    f1, f2, ab = words("f", 26), words("g", 14), words("a", 18)
+    flows["float0"], flows["float1"], flows["abs"] = f1, f2, ab
+    body.append('<div class=rel><div class=abs>%s</div><div class=f>%s</div><div class=f>%s</div>' % (" ".join(ab), " ".join(f1), " ".join(f2)))
+    wi = 1
+    for pi in range(16):
+        ws = words("w", 12, wi); wi += 12; main += ws
+        body.append(para(ws, "", 6 if pi in (9, 12, 15) else None))
+    body.append("</div>")
+    flows["main"] = main
+    scenario("oof-16", "oof", doc(css, "\n".join(body)), expect=dict(flows=flows, margin=True, page_w=260, page_h=150, conserve=True, line_height=12))
+
+    # multi-column blocks that do not fit at the bottom of a page (pushed whole to the next one), next to a footnote,
+    # and column-break properties used OUTSIDE columns (where they mean nothing); fixed-height blocks
+    head = ("@page { size: 200px 300px; margin: 30px }\nhtml, body { margin: 0; font-family: ahem; font-size: 20px; line-height: 20px }\np { margin: 0 }\n"
+            ".cols { columns: 2; column-gap: 0 } .cols div { break-inside: avoid } span.fn { float: footnote } section { break-inside: avoid }\n::footnote-call { content: \"\" } ::footnote-marker { content: \"\" }\n")
+    body = ('<p style="height: 150px">aa</p><p>bb<span class=fn>f1 f2 f3 f4 f5 f6</span></p>'
+            '<div class=cols><div style="height:100px">cc</div><div style="height:100px">dd</div><div style="height:100px">ee</div><div style="height:100px">ff</div></div><p>gg</p>')
+    scenario("col-01", "col", doc(head, body), expect=dict(page_w=200, page_h=300, line_height=20, blocks_fit=True, geometry=True,
+                                                             flows={"main": ["aa", "bb", "cc", "dd", "ee", "ff", "gg"], "fn": ["f1", "f2", "f3", "f4", "f5", "f6"]}, conserve=True))
+    # greedy model: content box 240px high; blocks (word, height, break-before-page)
+    blocks = [("aa", 100, False), ("bb", 100, False), ("C1", 60, False), ("ee", 20, False),                      # avoid-column on bb means nothing outside columns
+              ("hh", 150, True), ("ii", 30, False), ("xx", 30, False), ("C2", 60, False), ("jj", 20, False),    # break-before: column on xx means nothing
+              ("kk", 50, True), ("ll", 50, False), ("C3", 60, False), ("mm", 20, False), ("nn", 20, True)]
+    html_blocks, word_page, flow = [], {}, []
+    page, used = 0, 0
+    for (w, h, brk) in blocks:
+        if brk or used + h > 240:
+            page += 1; used = 0
+        used += h
+        style = "height: %dpx" % h
+        if brk:
+            style += "; break-before: page"
+        if w == "bb" or w == "ll":
+            style += "; break-after: avoid-column"
+        if w == "xx" or w == "mm":
+            style += "; break-before: column"
+        if w.startswith("C"):
+            a, b = w.lower() + "a", w.lower() + "b"
+            html_blocks.append('<div class=cols><div style="height:%dpx">%s</div><div style="height:%dpx">%s</div></div>' % (h, a, h, b))
+            word_page[a] = page; word_page[b] = page; flow += [a, b]
+        else:
+            html_blocks.append('<p style="%s">%s</p>' % (style, w))
+            word_page[w] = page; flow.append(w)
+    scenario("col-02", "col", doc(head, "".join(html_blocks)), expect=dict(page_w=200, page_h=300, line_height=20, blocks_fit=True, geometry=True, word_page=word_page,
+                                                                            flows={"main": flow}, conserve=True))
 
     # margin boxes that manipulate counters: a "continued" header incrementing page, several boxes per side
     css = ("@page { size: 220px 150px; margin: 24px 10px 18px 10px; @top-left { content: \"tl\" counter(page) } @top-right { counter-increment: page; content: \"nx\" counter(page) } @top-center { content: \"tc\" counter(page) \"of\" counter(pages) }"
